@@ -64,7 +64,7 @@ func (e *Env) observe(c *Chain, class int, errs string) Obs {
 // [3] W.balanceOf(sender) [4] B.balanceOf(sender) [5] U.balanceOf(sender) [6] U.balanceOf(endpoint)
 // then for each peer d (ascending index): bindings(W/d).amount, bindings(B/d).amount, outTokens(N,d), outTokens(0,d), outTokens(U,d)
 // then bindings(W/tss-idx).amount, A.balanceOf(sender), A.balanceOf(agent), A.balanceOf(endpoint),
-// stake(packet contract), stake(endpoint contract)
+// stake(packet contract), stake(endpoint contract), N.balanceOf(R2), N.balanceOf(R3), stake(sender), stake(R2), stake(R3)
 func (e *Env) balances(c *Chain, ctx sdk.Context) []string {
 	out := []string{}
 	bal := func(tok, who common.Address) {
@@ -113,6 +113,12 @@ func (e *Env) balances(c *Chain, ctx sdk.Context) []string {
 	bk := c.tc.App.BankKeeper
 	out = append(out, bk.GetBalance(ctx, sdk.AccAddress(packetAddr.Bytes()), sdk.DefaultBondDenom).Amount.String())
 	out = append(out, bk.GetBalance(ctx, sdk.AccAddress(endpAddr.Bytes()), sdk.DefaultBondDenom).Amount.String())
+	// relayers (the fee of an acknowledged packet goes to the relayer named in the acknowledgement)
+	bal(c.N, common.BytesToAddress(e.accs[1]))
+	bal(c.N, common.BytesToAddress(e.accs[2]))
+	for _, a := range e.accs {
+		out = append(out, bk.GetBalance(ctx, a, sdk.DefaultBondDenom).Amount.String())
+	}
 	return out
 }
 
@@ -357,9 +363,8 @@ var (
 )
 
 type txEvents struct {
-	sends  [][]byte            // packet bytes of EventSendPacket
-	writes [][2][]byte         // (packet bytes, ack bytes) of EventWriteAck
-	raw    []*packettypes.EventWriteAck
+	sends  [][]byte    // packet bytes of EventSendPacket
+	writes [][2][]byte // (packet bytes, ack bytes) of EventWriteAck
 }
 
 func parseEvents(evs []abci.Event) txEvents {
@@ -572,9 +577,9 @@ func (e *Env) opSendRaw(op Op, opIdx int) {
 	next := pk.GetNextSequenceSend(c.ctx(), c.name, dst)
 	p := packettypes.Packet{
 		SrcChain: c.name, DstChain: dst, Sequence: uint64(int64(next) + int64(op.SeqDelta)),
-		Sender:       "raw-sender",
-		TransferData: []byte(fmt.Sprintf("raw-transfer-data-%d", opIdx)),
-		CallData:     []byte{},
+		Sender:          "raw-sender",
+		TransferData:    []byte(fmt.Sprintf("raw-transfer-data-%d", opIdx)),
+		CallData:        []byte{},
 		CallbackAddress: "", FeeOption: 0,
 	}
 	switch op.Mal {
@@ -693,8 +698,13 @@ func (e *Env) proofFor(c, s *Chain, key, other []byte, alters []string, fresh bo
 		return []byte("no-client"), clienttypes.NewHeight(clienttypes.ParseChainID(s.name), 2)
 	}
 	if has(alters, "height_old") {
+		// an older height with a stored consensus state: the oldest one (nothing was committed then) or
+		// the one before the latest (the commitment may or may not have existed)
 		if hsx := c.consensusHeights(s.name); len(hsx) > 0 {
 			h = hsx[0]
+			if e.curOp%2 == 1 && len(hsx) >= 2 {
+				h = hsx[len(hsx)-2]
+			}
 		}
 	}
 	k := key
@@ -763,15 +773,32 @@ func (e *Env) opRecv(op Op, opIdx int) {
 	other := host.PacketAcknowledgementKey(orig.SrcChain, orig.DstChain, orig.Sequence)
 	proof, height := e.proofFor(c, s, key, other, op.Alter, op.FreshProof)
 	e.prepare(c)
-	signer := e.accs[op.Relayer].String()
-	msg := &packettypes.MsgRecvPacket{Packet: bz, ProofCommitment: proof, ProofHeight: height, Signer: signer}
+	class := e.runRecv(c, op.Relayer, bz, proof, height)
+	tag := "plain"
+	if len(op.Alter) > 0 {
+		tag = "alter_" + strings.Join(op.Alter, "+")
+	}
+	if op.Enc != "" {
+		tag += ".enc_" + op.Enc
+	}
+	e.stat(fmt.Sprintf("recv.%s.rel%d.class%d", tag, op.Relayer, class))
+	if c.name != orig.DstChain {
+		e.stat(fmt.Sprintf("recv.on_other_chain.class%d", class))
+	}
+	e.finish(c, op.Commit)
+}
 
+// runRecv delivers MsgRecvPacket{bz, proof, height} signed by relayer rel to c as one step: oracle
+// entries before, observed callback (from the events of the transaction) after.
+func (e *Env) runRecv(c *Chain, rel int, bz, proof []byte, height clienttypes.Height) int {
+	signer := e.accs[rel].String()
+	msg := &packettypes.MsgRecvPacket{Packet: bz, ProofCommitment: proof, ProofHeight: height, Signer: signer}
 	dec, decErr := e.orc.AddDecode(bz)
 	e.verifyOracle(c, e.envN+1, 0, bz, nil, proof, height, signer)
 	act := &ActRecv{T: "recv", Packet: hx(bz), Proof: hx(proof), Height: heightJ(height), Signer: hs(signer), Cb: emptyCb()}
 	var observedRet *[3]interface{}
 	class := e.record(c, act, func() (int, string) {
-		cl, res, err := e.deliver(c, e.keys[op.Relayer], msg)
+		cl, res, err := e.deliver(c, e.keys[rel], msg)
 		if cl != 0 {
 			return cl, errText(err)
 		}
@@ -781,35 +808,34 @@ func (e *Env) opRecv(op Op, opIdx int) {
 			e.orc.AddDecode(w[0])
 			e.orc.AddDecodeAck(w[1])
 		}
-		if len(evs.writes) > 0 {
-			w := evs.writes[0][1]
-			code, result, message, _, _, ok := rawAck(w)
-			if !ok {
-				return 0, "harness: written ack does not unpack"
-			}
-			if code == 1 && message == cbFailedMsg {
-				act.Cb.Fail = true
-				e.stat("cb.fail")
-			} else {
-				act.Cb.Ret = [3]interface{}{u64(code), hx(result), hs(message)}
-				observedRet = &[3]interface{}{code, result, message}
-				e.stat("cb.ret_code" + u64(code) + "." + message)
-			}
-			if dec.DstChain == c.name {
-				act.Cb.Sends = e.sendsOf(c, evs.sends)
-				if len(evs.sends) > 0 {
-					e.stat("cb.sends_packets")
-				}
-			} else {
-				e.sendsOf(c, evs.sends)
+		if len(evs.writes) == 0 {
+			// relay branch (or nothing): a forwarded packet is a sent packet of this chain
+			e.sendsOf(c, evs.sends)
+			return 0, ""
+		}
+		code, result, message, _, _, ok := rawAck(evs.writes[0][1])
+		if !ok {
+			return 0, "harness: written ack does not unpack"
+		}
+		if code == 1 && message == cbFailedMsg {
+			act.Cb.Fail = true
+			e.stat("cb.fail")
+		} else {
+			act.Cb.Ret = [3]interface{}{u64(code), hx(result), hs(message)}
+			observedRet = &[3]interface{}{code, result, message}
+			e.stat("cb.ret_code" + u64(code) + "." + message)
+		}
+		if dec.DstChain == c.name {
+			act.Cb.Sends = e.sendsOf(c, evs.sends)
+			if len(evs.sends) > 0 {
+				e.stat("cb.sends_packets")
 			}
 		} else {
-			// relay branch (or nothing): the forwarded packet is a sent packet of this chain
 			e.sendsOf(c, evs.sends)
 		}
 		return 0, ""
 	})
-	// pack_ack table for this step
+	// pack_ack table of this step
 	if decErr == nil || dec.Sequence != 0 {
 		combos := [][3]interface{}{{uint64(1), []byte{}, cbFailedMsg}, {uint64(1), []byte{}, dstNotFoundMsg}}
 		if observedRet != nil {
@@ -823,18 +849,7 @@ func (e *Env) opRecv(op Op, opIdx int) {
 			}
 		}
 	}
-	tag := "plain"
-	if len(op.Alter) > 0 {
-		tag = "alter_" + strings.Join(op.Alter, "+")
-	}
-	if op.Enc != "" {
-		tag += ".enc_" + op.Enc
-	}
-	e.stat(fmt.Sprintf("recv.%s.rel%d.class%d", tag, op.Relayer, class))
-	if c.name != orig.DstChain {
-		e.stat(fmt.Sprintf("recv.on_other_chain.class%d", class))
-	}
-	e.finish(c, op.Commit)
+	return class
 }
 
 // ---------------------------------------------------------------------------------------------
@@ -872,62 +887,7 @@ func (e *Env) opRecvTss(op Op, opIdx int) {
 		p.TransferData = []byte(fmt.Sprintf("junk-transfer-data-%d", opIdx))
 	}
 	bz := e.orc.AddPack(&p)
-	signer := e.accs[op.Relayer].String()
-	height := clienttypes.NewHeight(0, 1)
-	proof := []byte{}
-	msg := &packettypes.MsgRecvPacket{Packet: bz, ProofCommitment: proof, ProofHeight: height, Signer: signer}
-	dec, _ := e.orc.AddDecode(bz)
-	e.verifyOracle(c, e.envN+1, 0, bz, nil, proof, height, signer)
-	act := &ActRecv{T: "recv", Packet: hx(bz), Proof: hx(proof), Height: heightJ(height), Signer: hs(signer), Cb: emptyCb()}
-	var observedRet *[3]interface{}
-	class := e.record(c, act, func() (int, string) {
-		cl, res, err := e.deliver(c, e.keys[op.Relayer], msg)
-		if cl != 0 {
-			return cl, errText(err)
-		}
-		evs := parseEvents(res.Events)
-		for _, w := range evs.writes {
-			e.ackPool = append(e.ackPool, poolAck{pkt: w[0], ack: w[1], chain: c.idx})
-			e.orc.AddDecode(w[0])
-			e.orc.AddDecodeAck(w[1])
-		}
-		if len(evs.writes) > 0 {
-			code, result, message, _, _, ok := rawAck(evs.writes[0][1])
-			if !ok {
-				return 0, "harness: written ack does not unpack"
-			}
-			if code == 1 && message == cbFailedMsg {
-				act.Cb.Fail = true
-				e.stat("cb.fail")
-			} else {
-				act.Cb.Ret = [3]interface{}{u64(code), hx(result), hs(message)}
-				observedRet = &[3]interface{}{code, result, message}
-				e.stat("cb.ret_code" + u64(code) + "." + message)
-			}
-			if dec.DstChain == c.name {
-				act.Cb.Sends = e.sendsOf(c, evs.sends)
-				if len(evs.sends) > 0 {
-					e.stat("cb.sends_packets")
-				}
-			} else {
-				e.sendsOf(c, evs.sends)
-			}
-		} else {
-			e.sendsOf(c, evs.sends)
-		}
-		return 0, ""
-	})
-	combos := [][3]interface{}{{uint64(1), []byte{}, cbFailedMsg}, {uint64(1), []byte{}, dstNotFoundMsg}}
-	if observedRet != nil {
-		combos = append(combos, *observedRet)
-	}
-	for _, ir := range c.tc.App.XIBCKeeper.ClientKeeper.GetAllRelayers(c.ctx()) {
-		for _, a := range ir.Addresses {
-			for _, cb := range combos {
-				e.orc.AddPackAck(cb[0].(uint64), cb[1].([]byte), cb[2].(string), a, dec.FeeOption)
-			}
-		}
-	}
+	class := e.runRecv(c, op.Relayer, bz, []byte{}, clienttypes.NewHeight(0, 1))
 	e.stat(fmt.Sprintf("recv_tss.%s.dstself_%v.src_%s.rel%d.class%d", op.Variant, op.DstSelf, op.Src, op.Relayer, class))
 	e.finish(c, op.Commit)
 }
